@@ -7,6 +7,9 @@ spec/proc/Listener.tla   implementation-shaped model of proc/listener.go (Serve 
 spec/proc/RedisStop.tla  composition: Redis processor stop order with a session (pipelined requests, bounded reply
                          queue) and the slot refresher waiting for a responsive / silent / closed backend
                          (FixSessionWait / FixRefreshWait / FixProcQuit)
+spec/proc/RedisStopAll.tla  refinement of the upstream's stop-all: clientsMu, two backend clients, a backend reader handling a
+                         redirection (quit check, createClient under the lock, Send into the target's bounded queue),
+                         stop-all disciplines StopAllLock (hold / snapshot / none) x StopAllSignalsFirst
 spec/proc/TcpStop.tla    composition: TCP processor stop with one relayed connection and its watcher (FixQuit)
 
  1. exhaustive TLC runs of the repaired designs (safety, liveness under fairness, action properties);
@@ -62,7 +65,10 @@ def listener_stats(ctx, n=40, workers=6, timeout=600):
 
 # processor scenarios that must have been executed (placement of Stop x backend behaviour); a run in which one
 # of them is missing or ended with an infrastructure error decides nothing about the composition windows
-REQUIRED_SCENARIOS = (["redis/%s/%s" % (w, b) for w in ("idle-conns", "request-waiting", "pipeline-waiting", "refresh-waiting")
+REQUIRED_SCENARIOS = (["redis/redirect-in-flight-at-stop/fresh-target", "redis/redirect-in-flight-at-stop/full-target-queue",
+                       "redis/connect-pending-at-stop/slow-accept", "redis/backend-queue-full-at-stop/silent",
+                       "redis/refresh-blocked-at-stop/full-target-queue"] +
+                      ["redis/%s/%s" % (w, b) for w in ("idle-conns", "request-waiting", "pipeline-waiting", "refresh-waiting")
                        for b in ("responsive", "silent", "closed")]
                       + ["tcp/idle-conns/%s" % b for b in ("responsive", "silent", "closed")]
                       + ["%s/%s/responsive" % (p, w) for p in ("redis", "tcp")
@@ -93,7 +99,21 @@ def model_checking(ctx):
     jobs.append(("proc", "Listener", "MC_Listener_drainorder.cfg", ["DrainClosesSocket", "DrainStopsAccepting"], False, False))
     if ctx.thorough:
         jobs.append(("proc", "Listener", "MC_Listener_pinned.cfg", stuck + ["DrainStopsAccepting", "DrainClosesSocket", "ConnStatsConserved"], False, False))
-    jobs.append(("proc", "RedisStop", "MC_RedisStop_fixed.cfg", None, True, True))
+    # the composition with every repair, including the proposed stop order (quit of the upstream first, clients
+    # told to quit before the refresher is waited for); the quick tier uses one refresh round and no late backend loss
+    jobs.append(("proc", "RedisStop", "MC_RedisStop_fixed.cfg" if ctx.thorough else "MC_RedisStop_fixed_quick.cfg", None, True, True))
+    # the code as it is today, and each of the two ordering repairs alone: session readers / the refresher blocked in
+    # the Send of a backend with full queues
+    jobs.append(("proc", "RedisStop", "MC_RedisStop_current.cfg", stuck, False, False))
+    jobs.append(("proc", "RedisStop", "MC_RedisStop_noupquitfirst.cfg", stuck, False, False))
+    jobs.append(("proc", "RedisStop", "MC_RedisStop_nosignalbeforewait.cfg", stuck, False, False))
+    # the stop-all of the backend clients against a redirection in flight (refinement of UpStopClients)
+    jobs.append(("proc", "RedisStopAll", "MC_RedisStopAll_proposed.cfg", None, True, True))
+    jobs.append(("proc", "RedisStopAll", "MC_RedisStopAll_current_d1.cfg", stuck, False, False))
+    jobs.append(("proc", "RedisStopAll", "MC_RedisStopAll_current_d2.cfg", stuck, False, False))
+    jobs.append(("proc", "RedisStopAll", "MC_RedisStopAll_snapshot_only.cfg", stuck, False, False))
+    jobs.append(("proc", "RedisStopAll", "MC_RedisStopAll_signal_only.cfg", stuck, False, False))
+    jobs.append(("proc", "RedisStopAll", "MC_RedisStopAll_nolock.cfg", ["NoLiveClientAfterStop", "AfterStopAllReleased"], False, False))
     if ctx.thorough:   # 10^5 states; shows that the waits of the pinned code only hang with a silent backend
         jobs.append(("proc", "RedisStop", "MC_RedisStop_pinned_benign.cfg", None, True, False))
     jobs.append(("proc", "RedisStop", "MC_RedisStop_nosession.cfg", stuck, False, False))
@@ -118,8 +138,10 @@ def model_checking(ctx):
         mod, cfg = t
         return t, ctx.tlc("proc", mod, cfg, workers=1, timeout=300)
 
-    with cf.ThreadPoolExecutor(max_workers=2) as ex:
-        for (mod, cfg), r in ex.map(trap, [("ListenerWin", "MC_Listener_traps.cfg"), ("RedisStopWin", "MC_RedisStop_traps.cfg")]):
+    with cf.ThreadPoolExecutor(max_workers=4) as ex:
+        for (mod, cfg), r in ex.map(trap, [("ListenerWin", "MC_Listener_traps.cfg"), ("RedisStopWin", "MC_RedisStop_traps.cfg"),
+                                            ("RedisStopWin", "MC_RedisStop_traps_fullqueue.cfg"),
+                                            ("RedisStopAllWin", "MC_RedisStopAll_traps.cfg")]):
             if "@@UNREACHED" in r.stdout:
                 m = re.search(r'@@UNREACHED",\s*(.*?)>>', r.stdout, re.S)
                 raise kit.Inconclusive("vacuous model %s: windows never reached: %s" % (mod, " ".join((m.group(1) if m else "").split())))
@@ -240,7 +262,7 @@ def confirmed_signatures(results):
     """signatures of hangs that were confirmed by a re-run with the long deadline"""
     confirmed = set()
     for r in results:
-        if r.get("hung") and r.get("attempt", 1) >= 2:
+        if r.get("hung") and (r.get("attempt", 1) >= 2 or r.get("deadlineMs", 0) >= 10000):
             for f in r.get("findings") or []:
                 confirmed.add(f["sig"])
     return confirmed
@@ -275,7 +297,7 @@ def evaluate(ctx, jobs_by_id, results, label, confirmed=frozenset()):
             summary["with_findings"] += 1
         for f in fs:
             sig = f["sig"]
-            if r.get("hung") and r.get("attempt", 1) < 2 and sig not in confirmed:
+            if r.get("hung") and r.get("attempt", 1) < 2 and r.get("deadlineMs", 0) < 10000 and sig not in confirmed:
                 ctx.notes.append("%s %s: %s seen once with the short deadline, not re-run" % (label, r.get("name") or r["id"], sig))
                 continue
             art = {"job": job, "result": {k: v for k, v in r.items() if k != "trace"}}
